@@ -129,7 +129,9 @@ def oracle_order(args):
     out = {}
     if bad:
         return False, {"problems": bad}, {"ratio": "about 4 (>= 3)"}, bad[0]
-    if min_gap is not None and min_gap < 3e-3 and not spec.get("strict"):
+    # only the ADIABATIC surfaces have that cusp: in the diabatic representation forces and Hamiltonian are the smooth V, dV
+    # themselves whatever the spacing of the eigenvalues of V
+    if min_gap is not None and min_gap < 3e-3 and not spec.get("strict") and spec.get("representation", "adiabatic") == "adiabatic":
         return True, {"not_judged": "the path passes a near-degeneracy (smallest level spacing %.3g): not a smooth model at these steps" % min_gap,
                       "rho": {"ratio": 4.0, "ratios": [4.0, 4.0], "differences": [0.0, 0.0, 0.0]}}, {"ratio": "about 4 (>= 3)"}, "not judged"
     for name, idx in (("x", 0), ("p", 1), ("rho", 2)):
